@@ -61,7 +61,11 @@ impl StatSlot for ConcurrencyStatSlot {
                 let metric = tc.metric();
                 match metric.concurrency_counter.get(&arg) {
                     Some(counter) => {
-                        counter.fetch_sub(1, Ordering::SeqCst);
+                        // the entry may have been admitted before this counter existed (rule loaded
+                        // or value evicted in between): never wrap below zero
+                        let _ = counter.fetch_update(Ordering::SeqCst, Ordering::SeqCst, |c| {
+                            c.checked_sub(1)
+                        });
                     }
                     None => {
                         logging::debug!("[ConcurrencyStatSlot on_entry_passed] Parameter does not exist in ConcurrencyCounter., argument: {:?}", arg);
